@@ -1239,7 +1239,7 @@ func ruleReadPure(c *Ctx) []Obligation {
 					fld = "map:" + fieldKey(owner, f)
 				}
 				nW++
-				base := fmt.Sprintf("%s ⇒ %s: writes %s", c.FnName(api), c.FnName(fn), fld)
+				base := fmt.Sprintf("%s ⇒ %s: writes %s", c.FnName(api), c.FnName(c.inlineRoot(fn)), fld)
 				seen[base]++
 				con := base
 				if seen[base] > 1 {
